@@ -92,20 +92,28 @@ func c03sortJudge(keys []string) (v *ev.Violation) {
 			v = mk("panic", "sorted keys", clipS(fmt.Sprint(x), 200))
 		}
 	}()
-	in := append([]string(nil), keys...)
-	got, paired := verifhooks.SortMapKeys(in)
 	want := append([]string(nil), keys...)
 	sort.Strings(want)
-	if len(got) != len(want) {
-		return mk("output-not-sorted", fmt.Sprintf("%q", want), fmt.Sprintf("%q", got))
-	}
-	for i := range want {
-		if got[i] != want[i] {
-			return mk("output-not-sorted", fmt.Sprintf("%q", want), fmt.Sprintf("%q (first difference at %d, input order %q)", got, i, keys))
+	// twice: keys as string headers (string-keyed maps), and every key living in its pair's own
+	// scratch array (integer-keyed maps: the sorter must move (k, v), never whole elements)
+	for _, own := range []bool{false, true} {
+		layout := "string-key-layout"
+		if own {
+			layout = "integer-key-layout(key bytes inside the pair)"
 		}
-	}
-	if !paired {
-		return mk("value-detached-from-key", "every value next to its key", "a value moved away from its key")
+		in := append([]string(nil), keys...)
+		got, paired := verifhooks.SortMapKeys(in, own)
+		if len(got) != len(want) {
+			return mk("output-not-sorted:"+layout, fmt.Sprintf("%q", want), fmt.Sprintf("%q", got))
+		}
+		for i := range want {
+			if got[i] != want[i] {
+				return mk("output-not-sorted:"+layout, fmt.Sprintf("%q", want), fmt.Sprintf("%q (first difference at %d, input order %q)", got, i, keys))
+			}
+		}
+		if !paired {
+			return mk("value-detached-from-key:"+layout, "every value next to its key", "a value moved away from its key")
+		}
 	}
 	return nil
 }
